@@ -276,7 +276,12 @@ def build_uod(h: "EngineHarness", hw: HardwareLayerBase):
          .with_location("nowhere"))
     for name, safe in OUT_SAFE.items():
         b.with_hardware_register(name, RegisterDirection.Write, safe_value=safe)
-        b.with_tag(Tag(name, value=safe, unit=None, direction=TagDirection.Output))
+        # both UOD shapes the repository uses: a tag declared as Output, and (like the plain tags of demo_uod.py) a tag
+        # without a declared direction whose register has write direction and a safe value
+        if name == "Out2":
+            b.with_tag(Tag(name, value=safe, unit=None))
+        else:
+            b.with_tag(Tag(name, value=safe, unit=None, direction=TagDirection.Output))
     for name in OUT_PLAIN:
         b.with_hardware_register(name, RegisterDirection.Write)
         b.with_tag(Tag(name, value=0.0, unit="L/h", direction=TagDirection.Output))
